@@ -346,6 +346,20 @@ class Ctx:
             self.obs[oid] = {'kind': 'finite', 'lhs': (bad[0] if bad else 0.0), 'rhs': None, 'ok': not bad,
                              'pre_ok': all(bool(p) for p in pre)}
 
+    def sign_cubes(self, exprs):
+        """all sign patterns (<0, =0, >0) of the given expressions: a cover of the domain (symbolic mode)"""
+        if self.mode != 'sym':
+            return None
+        import itertools as _it
+        ns = [sr.lift(e) for e in exprs]
+        out = []
+        for pat in _it.product((-1, 0, 1), repeat=len(ns)):
+            cube = []
+            for sg, n in zip(pat, ns):
+                cube.append(sr.cmp('<', n, sr.ZERO) if sg < 0 else (sr.cmp('=', n, sr.ZERO) if sg == 0 else sr.cmp('<', sr.ZERO, n)))
+            out.append(cube)
+        return out
+
     def same_term(self, oid, a, b, **kw):
         """structural identity first (hash-consed), solver equality otherwise"""
         if self.mode == 'sym' and sr.lift(a) is sr.lift(b):
@@ -536,17 +550,19 @@ def discharge(ob, axioms=(), timeout=20, solvers=('z3',), robust=True):
     nq = 0
     tt = 0.0
     if ob.cubes:
-        # all cubes unsat => discharged; a sat cube => counterexample
-        worst = 'unsat'
-        for cube in ob.cubes:
-            r = smt.check(asserts + list(cube), timeout=to, want_model=True, solvers=solvers)
-            nq += 1; tt += r['time']
-            if r['res'] == 'sat':
-                return {'status': 'sat', 'model': r['model'], 'time': tt, 'solver': r['solver'], 'nq': nq,
-                        'asserts': asserts + list(cube), 'pre_all': pre_all}
-            if r['res'] != 'unsat':
-                worst = 'unknown'
-        return {'status': worst, 'model': None, 'time': tt, 'solver': 'z3', 'nq': nq}
+        # the cubes cover the domain: all cubes unsat => discharged; a sat cube => counterexample
+        t_ = time.time()
+        res = smt.check_many([asserts + list(cube) for cube in ob.cubes], timeout_each=min(to, 10))
+        nq += len(ob.cubes); tt += time.time() - t_
+        for cube, r in zip(ob.cubes, res):
+            if r == 'sat':
+                r2 = smt.check(asserts + list(cube), timeout=to, want_model=True, solvers=solvers)
+                nq += 1; tt += r2['time']
+                if r2['res'] == 'sat':
+                    return {'status': 'sat', 'model': r2['model'], 'time': tt, 'solver': r2['solver'], 'nq': nq,
+                            'asserts': asserts + list(cube), 'pre_all': pre_all}
+        worst = 'unsat' if all(r == 'unsat' for r in res) else 'unknown'
+        return {'status': worst, 'model': None, 'time': tt, 'solver': 'z3-cubes', 'nq': nq}
     r = smt.check(asserts, timeout=to, want_model=True, solvers=solvers)
     nq += 1; tt += r['time']
     res = r['res']
